@@ -79,6 +79,9 @@ def emit_machine(prog, m, out, is_root, opts):
                 'exit': 'msm::front::exit_pseudo_state<%s >' % st.exit_event,
                 }[st.kind]
         body = ['VF_STATE_BODY(%d)' % st.idx]
+        if opts.get('serialize') and st.kind == 'simple':
+            body = ['VF_SER_STATE(%d)' % st.idx]
+            if st.name in opts.get('ser_states', ()): body.append('VF_SER_DO')
         if st.entry_send or st.exit_send:
             md = {'p': 0, 'q': 1}
             en = ' '.join('vf_send<%s, %d>(e, f);' % (ev2, md[mode]) for ev2, mode in st.entry_send)
@@ -228,6 +231,8 @@ def emit_cpp(prog, opts=None):
         out.append('__attribute__((noinline)) void vf_copy(int mode) {')
         out.append('  if (mode == 0) { g_sm2 = static_cast<M const&>(g_sm); }')
         out.append('  else if (mode == 1) { g_sm2.~M(); new (&g_sm2) M(static_cast<M const&>(g_sm)); }')
+        if opts.get('serialize'):
+            out.append('  else if (mode == 4) { static int buf[256]; vf_archive sa(buf, true); sa & g_sm; vf_archive la(buf, false); la & g_sm2; }')
         out.append('#if VF_IS_MP11')
         out.append('  else if (mode == 2) { g_sm2 = std::move(g_sm); }')
         out.append('  else { g_sm2.~M(); new (&g_sm2) M(std::move(g_sm)); }')
@@ -252,6 +257,14 @@ def emit_cpp(prog, opts=None):
             else:
                 out.append('__attribute__((noinline)) int vf_qsize2(void) { return (int)g_sm2.get_message_queue_size(); }')
             out.append('#endif')
+        if opts.get('serialize'):
+            out.append('__attribute__((noinline)) int vf_cnt(int which, int si) {\n  switch (si) {')
+            for m in prog.machines:
+                for st in m.states.values():
+                    if st.kind != 'simple': continue
+                    out.append('    case %d: return which ? %s.get_state<%s_::%s&>().cnt : %s.get_state<%s_::%s&>().cnt;' % (
+                        st.idx, machine_obj(prog, m, 'g_sm2'), m.name, st.name, machine_obj(prog, m, 'g_sm'), m.name, st.name))
+            out.append('    default: return -1;\n  }\n}')
         out.append('// machine 1 is reset to a fresh object and restarted after having been moved from (must be destructible / assignable)')
         out.append('__attribute__((noinline)) void vf_reuse_moved_from(void) { g_sm = M(); g_sm.start(); }')
     out.append('__attribute__((noinline)) int vf_is_mp11(void) { return VF_IS_MP11; }')
@@ -458,7 +471,7 @@ def active_completion_sites(prog, conf):
     return fixed_guard_sites(prog, conf)[0]
 
 
-def emit_harness(prog, confs, steps, tag, proj=KINDS_ALL, check_result=True, check_post=True, check_flags=False, probe=None, check_introspect=False, check_queue=False, copy_modes=None,
+def emit_harness(prog, confs, steps, tag, proj=KINDS_ALL, check_result=True, check_post=True, check_flags=False, probe=None, check_introspect=False, check_queue=False, copy_modes=None, ser_states=None,
                  extra_pre=None, extra_leaf=None, nsites=None):
     """confs: list of (conf, script).  steps: symbolic step alphabet (list of step descriptors;
     all 'ev' steps are merged into one nondet kind).  Emits harness_p<i> per configuration."""
@@ -523,6 +536,14 @@ def emit_harness(prog, confs, steps, tag, proj=KINDS_ALL, check_result=True, che
             out.append('#endif')
             out.append('  if (cmode >= 2) { vf_which = 1; vf_inputs[6] = 1; }   /* after a move only the target carries the state */')
             for l in post_checks(prog, conf, tag + ':copy has the configuration of the original', 'VFN(vf_id2)'): out.append('  ' + l)
+            if ser_states is not None:
+                for m in prog.machines:
+                    for st in m.states.values():
+                        if st.kind != 'simple': continue
+                        if st.name in ser_states:
+                            out.append('  VF_CHECK(VFN(vf_cnt)(1, %d) == VFN(vf_cnt)(0, %d), "%s:data of a do_serialize state not restored");' % (st.idx, st.idx, tag))
+                        else:
+                            out.append('  VF_CHECK(VFN(vf_cnt)(1, %d) == 0, "%s:data of a state without do_serialize changed by loading");' % (st.idx, tag))
         if check_flags:
             for l in flag_checks(prog, conf, tag + ':prefix'): out.append('  ' + l)
         if check_introspect:
